@@ -273,6 +273,47 @@ def known_finding_stream(ctx):
         ctx.count('kf5.rf-delay>=1s.not-reproduced')
 
 
+KF_USE_SIG = 'C15/rf-use-merged'
+
+
+def rf_use_stream(ctx):
+    """events of different kind with numeric data equal within the rounding: two RF pulses that differ only in the 9th
+    digit of the amplitude and in `use`.  remove_duplicates() merges them (EventLibrary looks entries up by data only)
+    and block 2 decodes with the first pulse's use.  Coq witness: C15_rf_use_merge_refuted; same root cause as the
+    recorded finding C06/rf-use-shared-entry."""
+    import pypulseq as pp
+    import common
+    for flip_b, tag in ((math.pi / 2 * (1 + 1e-8), 'near'), (math.pi / 2 * (1 + 3e-5), 'far')):
+        s = pp.Sequence()
+        s.add_block(pp.make_block_pulse(math.pi / 2, duration=1e-3, use='excitation'))
+        s.add_block(pp.make_block_pulse(flip_b, duration=1e-3, use='refocusing'))
+        before = [s.get_block(i) for i in (1, 2)]
+        s2 = s.remove_duplicates()
+        ctx.evaluated('rf-use-' + tag, nontrivial=len(s2.rf_library.data) < 2)
+        r = refs_ok(s2)
+        if r:
+            ctx.fail('C15/refs', {'stream': 'rf-use', 'variant': tag}, {'what': r})
+        for i in (1, 2):
+            d = block_close(before[i - 1], s2.get_block(i), s)
+            if not d:
+                continue
+            case = {'reproducer': 'rf-use', 'variant': tag}
+            detail = {'block': i, 'what': d, 'use_before': before[i - 1].rf.use, 'use_after': s2.get_block(i).rf.use}
+            if d == 'rf.use' and tag == 'near':
+                ctx.count('kf.rf-use-merged.reproduced')
+                registered = any(k.get('property') == ID and k.get('status') == 'known' and k.get('signature') == KF_USE_SIG
+                                 for k in common.load_known())
+                if registered:
+                    ctx.fail(KF_USE_SIG, case, detail)
+                else:
+                    ctx.notes.append('finding %s reproduced (RF pulses equal within the rounding but with different use are '
+                                     'merged: block 2 decodes with use %r instead of %r); known_findings.json entry pending'
+                                     % (KF_USE_SIG, detail['use_after'], detail['use_before']))
+            else:
+                # pulses further apart than the rounding must never be merged, whatever their use
+                ctx.fail('C15/content', case, detail)
+
+
 def run(ctx):
     n_cases = {'quick': 160, 'thorough': 4000}[ctx.tier]
     rng = ctx.rng('near')
@@ -290,6 +331,7 @@ def run(ctx):
     if batch:
         flush(ctx, batch)
     known_finding_stream(ctx)
+    rf_use_stream(ctx)
 
 
 def flush(ctx, batch):
@@ -300,6 +342,9 @@ def flush(ctx, batch):
 
 
 def replay(ctx, case):
+    if case.get('reproducer') == 'rf-use':
+        rf_use_stream(ctx)
+        return {'reproducer': case['reproducer']}
     if 'reproducer' in case:
         known_finding_stream(ctx)
         return {'reproducer': case['reproducer']}
